@@ -120,7 +120,13 @@ def _ulist_long_case(draw):
     def long_list():
         lo, hi = draw(st.sampled_from([(30, 63), (64, 127), (64, 127), (128, 200), (128, 200)]))
         n = draw(st.sampled_from([lo, hi]) if draw(st.integers(0, 3)) == 0 else st.integers(lo, hi))
-        return draw(st.lists(idx, min_size=n, max_size=n))
+        if draw(st.booleans()):
+            return draw(st.lists(idx, min_size=n, max_size=n))
+        # 1-3 elements make their first appearance only in the last few positions (a scan that stops early misses them)
+        late = list(draw(st.permutations(list(range(len(pool)))))[:draw(st.integers(1, 3))])
+        early = [i for i in range(len(pool)) if i not in late]
+        tail = list(draw(st.permutations(late + [draw(st.sampled_from(early)) for _ in range(draw(st.integers(0, 2)))])))
+        return draw(st.lists(st.sampled_from(early), min_size=n - len(tail), max_size=n - len(tail))) + tail
 
     def short_list():
         return draw(st.lists(idx, max_size=8))
@@ -233,6 +239,10 @@ def run_ulist_ops(spec):
         cls.append('kind=' + kind)
         if kind != 'elem':
             _len_classes('operand_len', len(xs), cls)
+            # a member of the left operand whose first occurrence in the right operand is far down the list
+            firsts = [min(i for i, x in enumerate(xs) if _same(o, x)) for o in before if _in(o, xs)]
+            if firsts:
+                _len_classes('member_first_seen_at', max(firsts), cls)
             if op in '+|':
                 _len_classes('raw_len', len(before) + len(xs), cls)
                 _len_classes('union_raw_len', len(before) + len(xs), cls)
@@ -938,10 +948,10 @@ SUBS = [
                                   'op&': 0.2, 'op-': 0.2, 'op+': 0.2, 'op|': 0.2, 'kind=ulist': 0.1, 'equal_across_types': 0.005}),
     Sub('ulist_long', lambda tier: _ulist_long_case(), run_ulist_ops, quick=1500, thorough=6000,
         rule='long inputs (size thresholds / fast paths): a pool of 5-40 distinct hashables; raw lists of 30-200 pool entries with many repeats in drawn order '
-             '(so first- and last-occurrence order differ) as constructor argument (list / tuple / ulist) and / or as right operand (list or ulist) of + | - &, '
+             '(so first- and last-occurrence order differ; in half of them 1-3 elements first appear only in the last positions) as constructor argument (list / tuple / ulist) and / or as right operand (list or ulist) of + | - &, '
              'the other side short or long, 1-2 operations; same ordered-set oracle as ulist_ops. non-trivial as in ulist_ops',
         floor=0.1, class_floors={'raw_len>=64': 0.5, 'raw_len>=128': 0.25, 'ctor_raw_len>=64': 0.3, 'ctor_raw_len>=128': 0.12, 'union_raw_len>=64': 0.08,
-                                 'union_raw_len>=128': 0.04, 'operand_len>=64': 0.2, 'operand_len>=128': 0.08, 'first_and_last_occurrence_order_differ': 0.5,
+                                 'union_raw_len>=128': 0.04, 'operand_len>=64': 0.2, 'operand_len>=128': 0.08, 'member_first_seen_at>=64': 0.05, 'member_first_seen_at>=128': 0.02, 'first_and_last_occurrence_order_differ': 0.5,
                                  'op&': 0.15, 'op-': 0.15, 'op+': 0.15, 'op|': 0.15}),
     Sub('mapping_ops', _mapping_strategy, run_mapping_ops, quick=7000, thorough=30000,
         rule='mapping of class dictattr / Dict / local subclass of each / dictable with 0-5 string keys and flat values; one operation: d - key, d - [keys], '
